@@ -13,7 +13,7 @@ RULE = ('Pairs (equal and unequal lengths, ndim 1..2) x base settings x a compar
         'psi-free cases only). Relations '
         'between calls, independent of any reference: d(s,s)=0, d>=0, d(s1,s2;psi=(a,b,c,d)) = d(s2,s1;psi=(c,d,a,b)), '
         'monotonicity in window/psi/max_step/penalty (inf ordered last, slack 1e-9), window=1 on equal lengths = ED, '
-        'square distance matrix symmetric with zero diagonal and entry (a,b) = d(s[b],s[a]). Non-trivial: lengths >= 2 '
+        'square distance matrix symmetric with zero diagonal and entry (a,b) = d(s[b],s[a]), for a list of four series and for the same series cut to a common length and handed over as one 2-D / 3-D array (under the drawn window and under window 1, where entries are also the Euclidean distance). Non-trivial: lengths >= 2 '
         'and (a related pair of results differs strictly, or the lengths are unequal).')
 ASSUMPTIONS = ['finite doubles |x| <= 1e3, lengths <= 12', 'relative slack 1e-9 on every (in)equality']
 
@@ -185,6 +185,44 @@ def run(case):
                 v, exc = libcall(f, S[b], S[a], **mkw)
                 if exc is None and not ref.close(M[a, b], v):
                     res.fail(eng + ':matrix-entry', 'M[%d,%d]=%r but d(s[%d],s[%d])=%r' % (a, b, M[a, b], b, a, v))
+    # the same laws when the collection is ONE array (2-D, or 3-D for n-D points): the four series cut to a common length,
+    # under the drawn window and under window 1 (where each entry is also the Euclidean distance unless max_step forbids
+    # a diagonal pair, in which case it is infinite)
+    m = min(len(x) for x in S)
+    T = [x[:m] for x in S]
+    for eng in ('py', 'c'):
+        f = dict(_engines(case))[eng]
+        for w in (case['window'], 1):
+            akw = dict(mkw, window=w)
+            arr = np.array(T, dtype=np.double)
+            if nd == 1:
+                M, exc = libcall(dtw.distance_matrix, arr, use_c=(eng == 'c'), parallel=False, **akw)
+            else:
+                M, exc = libcall(dtw_ndim.distance_matrix, arr, ndim=nd, use_c=(eng == 'c'), parallel=False, **akw)
+            if exc:
+                res.fail('%s:matrix[array]:%s' % (eng, exc), 'distance_matrix on one array raised')
+                continue
+            M = np.asarray(M)
+            for a in range(len(T)):
+                for b in range(len(T)):
+                    if a == b:
+                        if M[a, a] != 0:
+                            res.fail(eng + ':matrix[array]-diagonal', 'M[%d,%d]=%r' % (a, a, M[a, a]))
+                        continue
+                    if not ref.close(M[a, b], M[b, a]):
+                        res.fail(eng + ':matrix[array]-symmetric', 'M[%d,%d]=%r M[%d,%d]=%r (window=%r)'
+                                 % (a, b, M[a, b], b, a, M[b, a], w))
+                    v, exc = libcall(f, T[b], T[a], **akw)
+                    if exc is None and not ref.close(M[a, b], v):
+                        res.fail(eng + ':matrix[array]-entry', 'window=%r: M[%d,%d]=%r but d(s[%d],s[%d])=%r'
+                                 % (w, a, b, M[a, b], b, a, v))
+                    if w == 1 and case['max_step'] is None:
+                        e, exc = libcall(ed.distance, np.array(T[a], dtype=np.double) if nd > 1 else list(T[a]),
+                                         np.array(T[b], dtype=np.double) if nd > 1 else list(T[b]),
+                                         inner_dist=case['inner'], use_ndim=(nd > 1))
+                        if exc is None and not ref.close(M[a, b], e):
+                            res.fail(eng + ':matrix[array]-window1-ed', 'window=1: M[%d,%d]=%r, ed.distance %r'
+                                     % (a, b, M[a, b], e))
     res.nontrivial = l1 >= 2 and l2 >= 2 and (strict or l1 != l2)
     if strict:
         res.cls('strict-relation')
